@@ -60,7 +60,7 @@ theorem prefix_spec (e : Env) (T : Term) (pos : Point) (last : Option Nat) (prev
     | true =>
       have := paw hf (by simp [hp])
       simp only [Option.isNone_some, Bool.false_eq_true, if_false, Bool.not_true, Bool.or_false,
-        List.cons_append, List.nil_append, exec_cons, exec_nil, execCmd, List.append_nil]
+        exec_cons, exec_nil, execCmd, List.append_nil]
       refine ⟨⟨⟨pw, pwp, prow, pcol, prowlt, this⟩, psgr⟩, ?_, ?_, ?_, ?_⟩ <;> first | trivial | rfl | exact ⟨rfl, rfl, rfl, rfl⟩
 
 
@@ -132,7 +132,7 @@ theorem finish_pos (e : Env) (s prev : Screen) (isDone : Bool) (pos : Point) (la
   unfold finish; simp
 
 theorem finish_spec (e : Env) (s prev : Screen) (isDone : Bool) (pos : Point) (last : Option Nat) (T : Term)
-    (g : Good e T pos last) (hnc : NoCont T)
+    (g : Good e T pos last)
     (hcur : min s.height e.h ≤ T.h)
     (htgt : (if isDone then min s.height e.h else s.cursor.y) < T.h)
     (hdone : isDone = true → prev.height = 0 ∧ (min s.height e.h = 0 → last = none)) :
@@ -182,7 +182,6 @@ theorem finish_spec (e : Env) (s prev : Screen) (isDone : Bool) (pos : Point) (l
   generalize moveCursor e.w p1 l1 tgt = m at *
   rw [exec_append]
   generalize exec cw T1 m.1 = T2 at *
-  have hnc2 : NoCont T2 := by intro y x; rw [m3, cells1]; exact hnc y x
   have htgx : tgt.x = (if isDone = true then 0 else s.cursor.x) := by
     rw [← htg]; cases isDone <;> simp
   have htgy' : tgt.y = (if isDone = true then curH else s.cursor.y) := by
@@ -426,7 +425,7 @@ theorem core (e : Env) (s pscr : Screen) (isDone : Bool) (T1 : Term) (p1 : Point
     refine ⟨h0, fun hz => ?_⟩
     rw [hrl (by omega), hl]
   obtain ⟨f1, f2, f3, f4, f5, f6, f7, f8, f9⟩ :=
-    finish_spec cw e s pscr isDone r.pos r.last T2 r1 r3 (by rw [r2.h]; omega) (by rw [r2.h]; exact htgt) hd2
+    finish_spec cw e s pscr isDone r.pos r.last T2 r1 (by rw [r2.h]; omega) (by rw [r2.h]; exact htgt) hd2
   generalize exec cw T2 (finish e s pscr isDone r.pos r.last).cmds = T3 at *
   -- the cells of the rows after the row loop show the new screen
   have hrows : ∀ y x, y < T1.h → x < e.w →
